@@ -77,6 +77,8 @@ pub struct Events {
     pub half_byte_samples: u64,
     pub half_byte_rejections: u64,
     pub sib_rejections: u64,
+    pub rbp_max_bytes: u64,     // most bytes squeezed by one RejBoundedPoly call
+    pub rnp_max_bytes: u64,     // most bytes squeezed by one RejNTTPoly call
     // rounding
     pub t_wrap_high: u64,       // keygen: A*s1 + s2 >= q before reduction
     pub t_wrap_low: u64,        // keygen: A*s1 + s2 < 0 before reduction
@@ -497,13 +499,16 @@ pub fn rej_ntt_poly(rho: &[u8]) -> Poly {
     let mut a = ZERO;
     let mut j = 0;
     let mut ctx = Xof::g(&[rho]);
+    let mut used = 0u64;
     while j < 256 {
         let s = ctx.squeeze(3);
+        used += 3;
         if let Some(v) = coeff_from_three_bytes(s[0], s[1], s[2]) {
             a[j] = v;
             j += 1;
         }
     }
+    ev(|e| e.rnp_max_bytes = e.rnp_max_bytes.max(used));
     a
 }
 
@@ -513,8 +518,10 @@ pub fn rej_bounded_poly(rho: &[u8], eta: i64) -> Poly {
     let mut a = ZERO;
     let mut j = 0;
     let mut ctx = Xof::h(&[rho]);
+    let mut used = 0u64;
     while j < 256 {
         let z = ctx.squeeze(1)[0];
+        used += 1;
         let z0 = coeff_from_half_byte(z % 16, eta);
         let z1 = coeff_from_half_byte(z / 16, eta);
         if let Some(v) = z0 {
@@ -528,6 +535,7 @@ pub fn rej_bounded_poly(rho: &[u8], eta: i64) -> Poly {
             }
         }
     }
+    ev(|e| e.rbp_max_bytes = e.rbp_max_bytes.max(used));
     a
 }
 
